@@ -71,6 +71,7 @@ type GenomeCfg struct {
 	LargeNumbers bool // one genome in ten carries node ids up to 2^31-1 and innovation numbers up to 2^63-2
 	LargeRoom    bool // as LargeNumbers, but the numbers leave room for a long history (node ids up to 2^30, innovation numbers up to 2^62)
 	ModLinkW     bool // every second module is assembled in code: its links carry generated weights and recurrence flags
+	ModLinkTr    bool // links of a module assembled in code may carry one of the genome's traits
 }
 
 // genGenomeSpec is G-direct: a hand-built well-formed genome.
@@ -174,6 +175,15 @@ func enlargeNumbers(t *rapid.T, s GenomeSpec, room bool) GenomeSpec {
 		for i := range s.Modules {
 			if s.Modules[i].Trait != 0 {
 				s.Modules[i].Trait += toff
+			}
+			if len(s.Modules[i].LinkTr) > 0 {
+				lt := append([]int(nil), s.Modules[i].LinkTr...)
+				for k := range lt {
+					if lt[k] != 0 {
+						lt[k] += toff
+					}
+				}
+				s.Modules[i].LinkTr = lt
 			}
 		}
 	}
@@ -430,6 +440,12 @@ func drawGenomeSpec(t *rapid.T, cfg GenomeCfg) GenomeSpec {
 				for k := 0; k < len(ms.Ins)+len(ms.Outs); k++ {
 					ms.LinkW = append(ms.LinkW, rapid.SampledFrom([]float64{1, 0.5, 2, -1.5, 0.25, 0, 1e10}).Draw(t, "module link weight"))
 					ms.LinkRec = append(ms.LinkRec, rapid.IntRange(0, 3).Draw(t, "module link recurrent") == 0)
+					if cfg.ModLinkTr && len(s.Traits) > 0 && rapid.Bool().Draw(t, "module link with trait") {
+						for len(ms.LinkTr) < k {
+							ms.LinkTr = append(ms.LinkTr, 0)
+						}
+						ms.LinkTr = append(ms.LinkTr, s.Traits[rapid.IntRange(0, len(s.Traits)-1).Draw(t, "module link trait")].Id)
+					}
 				}
 			}
 			s.Modules = append(s.Modules, ms)
